@@ -63,7 +63,7 @@ def main():
     res["checks"] = {}
     for c in checks:
         t0 = time.time()
-        rc, out = sh(["./check", c], cwd=VERIF, env={"VERIF_REPO": WT, "VERIF_TARGET_DIR": "/tmp/verif-alt-target"})
+        rc, out = sh(["./check", c], cwd=VERIF, env={"VERIF_REPO": WT, "VERIF_TARGET_DIR": "/tmp/verif-alt-target-" + os.path.basename(WT)})
         lines = [l for l in out.split("\n") if l.startswith("VIOLATION") or l.startswith("# C")]
         res["checks"][c] = {"rc": rc, "detected": rc == 1 and any(l.startswith("VIOLATION") for l in lines),
                             "lines": lines, "wall_s": round(time.time() - t0, 1)}
